@@ -223,6 +223,13 @@ def run_case(case: dict, driver):
                 impl.append(str(du.count_data_added_since(-math.inf if since is None
                                                          else float(F(since)))))
             trace.append((kind, op[3]))
+        elif kind == "thread_pause_resume":
+            # the training thread's own pause/resume cycle (hooks forwarded to the trainers) between
+            # two ticks: it must not disturb whose turn it is — the model has no such operation,
+            # i.e. it is the identity on the cursor and on every marker
+            thread.on_paused()
+            thread.on_resumed()
+            trace.append((kind, ""))
         elif kind == "tick":
             del log[:]
             world.take()
@@ -336,8 +343,10 @@ def gen_case(rng) -> dict:
         gap = rng.choice(GAPS)
         if r < 0.5:
             ops.append(["collect", gap, f"u{rng.randrange(nu)}"])
-        elif r < 0.85:
+        elif r < 0.80:
             ops.append(["tick", gap])
+        elif r < 0.85:
+            ops.append(["thread_pause_resume", gap])
         elif r < 0.92:
             what = rng.choice(["len", "count", "count", "data"])
             since = None if rng.random() < 0.2 else str(F(rng.randrange(0, 80), 4))
